@@ -1,10 +1,11 @@
 """Contracts for mabwiser/mab.py: the public facade MAB (C04, C06, C08, C14, C17, C18)."""
 from pyvc.spec import klass, fn
 
-IMPS = '{_EpsilonGreedy|_UCB1|_Softmax|_ThompsonSampling|_Popularity|_Random|_Linear|_Radius|_KNearest}'
-# (LSHNearest, Clusters and TreeBandit receivers are not under contract yet: see DESIGN.md)
+IMPS = '{_EpsilonGreedy|_UCB1|_Softmax|_ThompsonSampling|_Popularity|_Random|_Linear|_Radius|_KNearest|_LSHNearest}'
+# (Clusters and TreeBandit receivers are not under contract: see DESIGN.md)
+NBH = '(isinstance(self._imp, _Radius) or isinstance(self._imp, _KNearest) or isinstance(self._imp, _LSHNearest))'
 
-CONTEXTUAL = ('(isinstance(self._imp, _Linear) or isinstance(self._imp, _Radius) or isinstance(self._imp, _KNearest))')
+CONTEXTUAL = '(isinstance(self._imp, _Linear) or %s)' % NBH
 klass('MAB',
       fields={'arms': 'list:arm', 'seed': 'int const', 'n_jobs': 'int const', 'backend': 'optopaque const',
               '_rng': 'rng', '_is_initial_fit': 'bool', 'is_contextual': 'bool const', '_imp': 'obj:' + IMPS},
@@ -49,7 +50,7 @@ fn('mab.MAB._convert_array', props='C18', pure=True, functional=True, reads=[],
    ensures=['[C18,same.elements] content_of(result) == content_of(array_like)'], result=converted_kind)
 
 ACCEPTED_2D = '(al_is_ndarray(contexts) or al_is_list(contexts) or al_is_dataframe(contexts) or al_is_series(contexts))'
-IS_LIN_LP = ('(isinstance(self._imp, _Linear) or ((isinstance(self._imp, _Radius) or isinstance(self._imp, _KNearest)) and '
+IS_LIN_LP = ('(isinstance(self._imp, _Linear) or (' + NBH + ' and '
              'isinstance(self._imp.lp, _Linear)))')
 NUMF = ('(slen(val(self._imp.arm_to_model, at(self.arms, 0), "beta")) if isinstance(self._imp, _Linear) else '
         'cols(self._imp.contexts))')
@@ -84,14 +85,14 @@ fn('mab.MAB.fit', props='C06 C07 C08 C17 C18', public=True,
    params=MAB_FIT,
    requires=['INV', 'slen(self.arms) > 0', WIDTH_OK, NONEMPTY],
    raises='*', callee_rejects=['fit'],
-   modifies=['self._imp.**', 'self._is_initial_fit'],
+   modifies=['self._imp.**', 'self._is_initial_fit', 'self._rng.rng.state'],      # LSHNearest draws its hyperplanes in fit
    # C17: every rejection happens before the first write;  C18: the implementor is given the converted arrays only
    ensures=['INV', '[C07,C08,fitted] self._is_initial_fit'])
 fn('mab.MAB.partial_fit', props='C06 C08 C17 C18', public=True,
    params=MAB_FIT,
    requires=['INV', 'slen(self.arms) > 0', WIDTH_OK, NONEMPTY],
    raises='*',
-   modifies=['self._imp.**', 'self._is_initial_fit'],
+   modifies=['self._imp.**', 'self._is_initial_fit', 'self._rng.rng.state'],
    # C06: the first partial_fit of an unfitted bandit is a fit
    ensures=['INV', '[C06,C08,fitted] self._is_initial_fit'])
 
@@ -101,7 +102,7 @@ CTX_TYPE_OK = ('((al_is_ndarray(contexts) and al_ndim(contexts) == 2) or (al_is_
                'al_is_dataframe(contexts))))')
 LEN_OK = ('(al_len(decisions) == al_len(contexts) or (al_len(decisions) == 1 and al_is_series(contexts)))')
 IS_TS_NOBIN = ('((isinstance(self._imp, _ThompsonSampling) and is_none(self._imp.binarizer)) or '
-               '((isinstance(self._imp, _Radius) or isinstance(self._imp, _KNearest)) and '
+               '(' + NBH + ' and '
                'isinstance(self._imp.lp, _ThompsonSampling) and is_none(self._imp.lp.binarizer)))')
 VALID_FIT = ('(%s and %s and ((%s and self.is_contextual and %s) if not is_none(contexts) else (not self.is_contextual)) and '
              'al_len(decisions) == al_len(rewards) and ((not %s) or binary(reals_of(rewards))))'
@@ -153,8 +154,8 @@ fn('mab.MAB.warm_start', props='C13 C17 C18', public=True,
 fn('mab.MAB.cold_arms', props='C13', public=True, pure=True,
    requires=['INV'], modifies=[],
    # C13: exactly the arms that are neither observed nor warm-started (none is reported under a neighbourhood policy)
-   ensures=['[C13,cold] forall_arm(lambda a: mem(result, a) == ((not (isinstance(self._imp, _Radius) or '
-            'isinstance(self._imp, _KNearest))) and mem(self.arms, a) and not val(self._imp.arm_to_status, a, "is_trained") '
+   ensures=['[C13,cold] forall_arm(lambda a: mem(result, a) == ((not ' + NBH + ') and mem(self.arms, a) and '
+            'not val(self._imp.arm_to_status, a, "is_trained") '
             'and not val(self._imp.arm_to_status, a, "is_warm")))'],
    result='alist')
 
@@ -168,17 +169,19 @@ for _c, _f in (('LearningPolicy.EpsilonGreedy', {'epsilon': 'real'}),
                ('LearningPolicy.ThompsonSampling', {'binarizer': 'optbinarizer'}),
                ('LearningPolicy.UCB1', {'alpha': 'real'}),
                ('NeighborhoodPolicy.Radius', {'radius': 'real', 'metric': 'str', 'no_nhood_prob_of_arm': 'optrlist'}),
-               ('NeighborhoodPolicy.KNearest', {'k': 'int', 'metric': 'str'})):
+               ('NeighborhoodPolicy.KNearest', {'k': 'int', 'metric': 'str'}),
+               ('NeighborhoodPolicy.LSHNearest', {'n_dimensions': 'int', 'n_tables': 'int', 'no_nhood_prob_of_arm': 'optrlist'})):
     klass(_c, fields=_f)
 LPOL = ('{LearningPolicy.EpsilonGreedy|LearningPolicy.LinGreedy|LearningPolicy.LinTS|LearningPolicy.LinUCB|'
         'LearningPolicy.Popularity|LearningPolicy.Random|LearningPolicy.Softmax|LearningPolicy.ThompsonSampling|'
         'LearningPolicy.UCB1}')
-NPOL = '{NeighborhoodPolicy.Radius|NeighborhoodPolicy.KNearest}'
+NPOL = '{NeighborhoodPolicy.Radius|NeighborhoodPolicy.KNearest|NeighborhoodPolicy.LSHNearest}'
 fn('mab.MAB.__init__', props='C04 C08 C17 C18', public=True,
    params={'arms': 'list:arm', 'learning_policy': 'obj:' + LPOL, 'neighborhood_policy': 'opt:obj:' + NPOL, 'seed': 'int',
            'n_jobs': 'int', 'backend': 'optopaque'},
    requires=[  # the library does not check these (they surface later as NumPy errors): documented preconditions
-       'is_none(neighborhood_policy) or not isinstance(neighborhood_policy, NeighborhoodPolicy.Radius) or '
+       'is_none(neighborhood_policy) or not (isinstance(neighborhood_policy, NeighborhoodPolicy.Radius) or '
+       'isinstance(neighborhood_policy, NeighborhoodPolicy.LSHNearest)) or '
        'is_none(neighborhood_policy.no_nhood_prob_of_arm) or slen(neighborhood_policy.no_nhood_prob_of_arm) == slen(arms)',
        # l2_lambda = 0 is accepted by the validation of LinGreedy / LinUCB but makes the initial model singular
        '(not (isinstance(learning_policy, LearningPolicy.LinGreedy) or isinstance(learning_policy, LearningPolicy.LinUCB))) '
